@@ -45,6 +45,9 @@ enum Spelling {
     BothSame,
     /// attribute dropped entirely (reference for serde-compat off)
     Stripped,
+    /// a different spelling per key, two bits each in rendering order: 0 serde only, 1 ts only,
+    /// 2 `ts(k = val)` + `serde(k = alt)`, 3 both with the same value
+    Mixed(u32),
 }
 
 #[derive(Clone, Debug)]
@@ -56,6 +59,8 @@ struct Mode {
     /// insert this junk into the serde list of attribute position `junk_at` (positions are
     /// numbered in rendering order), at list index `junk_idx` (clamped)
     junk: Option<(usize, usize, &'static str)>,
+    /// `#[serde(a, b,)]`
+    trailing_comma: bool,
 }
 
 const C10_JUNK: &[&str] = &[
@@ -184,6 +189,8 @@ struct Renderer<'a> {
     out: String,
     moved: usize,
     junk_next_to_supported: bool,
+    keys: u32,
+    mixed_kinds: [u32; 4],
 }
 
 impl Renderer<'_> {
@@ -214,7 +221,24 @@ impl Renderer<'_> {
                     self.moved += 1;
                 }
                 Spelling::Stripped => (),
+                Spelling::Mixed(mask) => {
+                    let kind = (mask >> (2 * (self.keys % 16))) & 3;
+                    self.mixed_kinds[kind as usize] += 1;
+                    match kind {
+                        0 => serde.push(format!("{}{}", a.key, a.val)),
+                        1 => ts.push(format!("{}{}", a.key, a.val)),
+                        2 => {
+                            ts.push(format!("{}{}", a.key, a.val));
+                            serde.push(format!("{}{}", a.key, a.alt.as_ref().unwrap_or(&a.val)));
+                        }
+                        _ => {
+                            ts.push(format!("{}{}", a.key, a.val));
+                            serde.push(format!("{}{}", a.key, a.val));
+                        }
+                    }
+                }
             }
+            self.keys += 1;
         }
         if let Some((idx, text)) = junk {
             let at = idx.min(serde.len());
@@ -233,7 +257,7 @@ impl Renderer<'_> {
                     self.out.push_str(&format!("#[{name}({a})] "));
                 }
             } else {
-                self.out.push_str(&format!("#[{name}({})] ", list.join(", ")));
+                self.out.push_str(&format!("#[{name}({}{})] ", list.join(", "), if self.mode.trailing_comma && name == "serde" { "," } else { "" }));
             }
         }
     }
@@ -251,7 +275,7 @@ impl Renderer<'_> {
 
 /// returns (source, number of keys whose spelling moved, junk adjacent to a supported key, positions)
 fn c10_render(item: &C10Item, mode: &Mode) -> (String, usize, bool, usize) {
-    let mut r = Renderer { mode, pos: 0, out: String::new(), moved: 0, junk_next_to_supported: false };
+    let mut r = Renderer { mode, pos: 0, out: String::new(), moved: 0, junk_next_to_supported: false, keys: 0, mixed_kinds: [0; 4] };
     r.attrs(&item.attrs);
     if item.is_enum {
         r.out.push_str("enum Zq9<T> { ");
@@ -336,7 +360,7 @@ fn c10_eval(words: &[u32], exclude: &[String], stats: Option<&mut Report>) -> Op
     let item = c10_item(words);
     let serde_on = cfg!(feature = "serde-compat");
     let w = |k: usize| words.get(200 + k).copied().unwrap_or(0);
-    let plain = |spelling| Mode { spelling, split_lists: false, serde_first: false, junk: None };
+    let plain = |spelling| Mode { spelling, split_lists: false, serde_first: false, junk: None, trailing_comma: false };
     let (src_serde, _, _, positions) = c10_render(&item, &plain(Spelling::Serde));
     let (src_ts, moved, _, _) = c10_render(&item, &plain(Spelling::Ts));
     let (src_none, _, _, _) = c10_render(&item, &plain(Spelling::Stripped));
@@ -348,8 +372,8 @@ fn c10_eval(words: &[u32], exclude: &[String], stats: Option<&mut Report>) -> Op
         nontrivial |= moved > 0;
         result = result.or_else(|| c10_relation("all-serde == all-ts", &src_serde, &src_ts, "serde-ts-spelling-differ"));
         // split over several lists
-        let (split_serde, _, _, _) = c10_render(&item, &Mode { spelling: Spelling::Serde, split_lists: true, serde_first: false, junk: None });
-        let (split_ts, _, _, _) = c10_render(&item, &Mode { spelling: Spelling::Ts, split_lists: true, serde_first: false, junk: None });
+        let (split_serde, _, _, _) = c10_render(&item, &Mode { spelling: Spelling::Serde, split_lists: true, serde_first: false, junk: None, trailing_comma: false });
+        let (split_ts, _, _, _) = c10_render(&item, &Mode { spelling: Spelling::Ts, split_lists: true, serde_first: false, junk: None, trailing_comma: false });
         relations += 2;
         result = result.or_else(|| c10_relation("one serde list == one list per key", &src_serde, &split_serde, "split-lists-differ"));
         result = result.or_else(|| c10_relation("one ts list == one list per key", &src_ts, &split_ts, "split-lists-differ"));
@@ -360,9 +384,23 @@ fn c10_eval(words: &[u32], exclude: &[String], stats: Option<&mut Report>) -> Op
         result = result.or_else(|| c10_relation("ts(k=v1) + serde(k=v2) == ts(k=v1)", &both, &src_ts, "ts-does-not-win"));
         result = result.or_else(|| c10_relation("ts(k=v) + serde(k=v) == ts(k=v)", &both_same, &src_ts, "ts-does-not-win"));
         // the same with the serde attribute written in front of the ts attribute
-        let (both_rev, _, _, _) = c10_render(&item, &Mode { spelling: Spelling::BothTsWins, split_lists: false, serde_first: true, junk: None });
+        let (both_rev, _, _, _) = c10_render(&item, &Mode { spelling: Spelling::BothTsWins, split_lists: false, serde_first: true, junk: None, trailing_comma: false });
         relations += 1;
         result = result.or_else(|| c10_relation("serde(k=v2) written before ts(k=v1) == ts(k=v1)", &both_rev, &src_ts, "ts-does-not-win"));
+        // a different spelling per key: ts wins key by key, the serde-only keys stay in force
+        for round in 0..2 {
+            let mask = w(90 + round) ^ (w(92 + round) << 16);
+            let mode = Mode { spelling: Spelling::Mixed(mask), split_lists: w(94 + round) % 3 == 0, serde_first: w(96 + round) % 2 == 0, junk: None, trailing_comma: false };
+            let (mixed, _, _, _) = c10_render(&item, &mode);
+            relations += 1;
+            result = result.or_else(|| c10_relation("per-key mixture of serde / ts / both spellings == all-ts", &mixed, &src_ts, "mixed-spellings-differ"));
+        }
+        // a trailing comma in the serde lists
+        if !exclude.iter().any(|e| e == "serde-list-with-trailing-comma-dropped") {
+            let (trailing, _, _, _) = c10_render(&item, &Mode { spelling: Spelling::Serde, split_lists: false, serde_first: false, junk: None, trailing_comma: true });
+            relations += 1;
+            result = result.or_else(|| c10_relation("#[serde(a, b,)] == #[serde(a, b)]", &trailing, &src_serde, "serde-list-with-trailing-comma-dropped"));
+        }
     }
     // junk insertion at every attribute position of the item (one at a time, rotating junk)
     let known_forms_excluded = exclude.iter().any(|e| e == "unparseable-known-key-drops-list");
@@ -379,7 +417,7 @@ fn c10_eval(words: &[u32], exclude: &[String], stats: Option<&mut Report>) -> Op
         if sig == "unparseable-known-key-drops-list" && known_forms_excluded {
             continue;
         }
-        let mode = Mode { spelling: Spelling::Serde, split_lists: false, serde_first: false, junk: Some((at, w(40 + at) as usize % 4, junk)) };
+        let mode = Mode { spelling: Spelling::Serde, split_lists: false, serde_first: false, junk: Some((at, w(40 + at) as usize % 4, junk)), trailing_comma: false };
         let (with_junk, _, adjacent, _) = c10_render(&item, &mode);
         relations += 1;
         nontrivial |= adjacent;
@@ -412,7 +450,7 @@ fn c10_run(tier: &str, seed: u64, exclude: &[String]) -> Report {
         let hs: Vec<_> = (0..nthreads)
             .map(|ti| {
                 s.spawn(move || {
-                    let strat = proptest::collection::vec(any::<u32>(), 260);
+                    let strat = proptest::collection::vec(any::<u32>(), 320);
                     let mut runner = TestRunner::new_with_rng(
                         Config { cases: (cases / nthreads) as u32, failure_persistence: None, max_shrink_iters: 3000, ..Config::default() },
                         TestRng::from_seed(RngAlgorithm::ChaCha, &seed_bytes(seed.wrapping_mul(31).wrapping_add(ti) ^ 0xC10)),
@@ -427,7 +465,7 @@ fn c10_run(tier: &str, seed: u64, exclude: &[String]) -> Report {
                             let mut rr = r.borrow_mut();
                             let f = c10_eval(&words, exclude, Some(&mut rr));
                             let nt = rr.extra.get("last_nontrivial").and_then(|v| v.as_bool()).unwrap_or(false);
-                            let (src, _, _, _) = c10_render(&c10_item(&words), &Mode { spelling: Spelling::Serde, split_lists: false, serde_first: false, junk: None });
+                            let (src, _, _, _) = c10_render(&c10_item(&words), &Mode { spelling: Spelling::Serde, split_lists: false, serde_first: false, junk: None, trailing_comma: false });
                             if nt && distinct.borrow_mut().insert(fnv(&src)) {
                                 rr.nontrivial += 1;
                             }
